@@ -5,6 +5,21 @@ HERE = os.path.dirname(os.path.dirname(os.path.abspath(__file__)))
 
 # id -> (engine, category, technique, level text, level note, design ref)
 CHECKS = {
+ "C12": ("codec", "exploration",
+   "proptest-generated authenticator data values: independent fixed-offset decoder (layout oracle), round-trip, and enumeration of every strict prefix / single-byte corruption of a subset",
+   "Values built with the public constructor and setters over RP IDs, counters, flag sets, AAGUIDs, credential-id lengths at every u8/u16 boundary up to 65535 (and beyond for the constructor guard), EC2 keys and both extension output types are encoded and decoded by the harness's own layout decoder (rpIdHash recomputed from the RP ID, big-endian counter, AT/ED iff section present, aaguid/length/id/COSE key/extension map bytes) and by the library (round-trip equality, absent counter reads back as 0); every strict prefix, reserved flag bits and flagged-but-missing sections must be rejected; corrupted encodings must not panic and must decode to a fixpoint.",
+   "AT/ED are controlled by the section setters only (set_flags gets UP/UV/BE/BS); trailing bytes are not constrained by the statement",
+   "DESIGN.md §4 C12"),
+ "C16": ("hid", "exploration",
+   "complete payload-length sweep 0..=7700 plus proptest messages through an independent packet parser and a fresh receiver (round-trip oracle); complete enumeration of all order-preserving merges of short multi-channel streams plus generated merges",
+   "Every payload length 0..=7700 (and 65535/65536/70000) is sent; the bytes written are parsed by the harness's own CTAPHID packet parser (64-byte packets, header layout, sequence numbers from 0 with bit 7 clear, zero padding, concatenation equals payload, nothing accepted above 7609) and fed to a fresh ChannelHandler (nothing before the last packet, exactly one equal message on it, orphan continuation yields nothing). For 2-4 channels all order-preserving merges of streams with up to 9 packets in total are enumerated for nine command rotations (so INIT, CANCEL ... appear on every channel position) and longer streams get generated merges.",
+   "channel id byte order accepted as either endianness but fixed within a message; refusals at or below 7609 are measured (the sender refuses exactly 7609)",
+   "DESIGN.md §4 C16"),
+ "C17": ("u2f", "exploration",
+   "proptest-generated U2F register/authenticate histories verified with p256 under the model's registered key, harness-side re-encoding of responses (reference encoder) and APDU round-trip of generated request frames",
+   "Histories over three store kinds with key handles of every length 0..=255 (each length also once deterministically), counters, all presence flag bytes and control bytes: the registration signature must verify over 0x00||app||challenge||handle||0x04||x||y, the store must hold a credential for (application, handle) whose private key matches, authentication must verify over app||presence||counter_be||challenge under that key, an unknown handle must fail, and encode() of every response must equal the harness's own field concatenation ending in 9000; generated well-formed extended-length frames must parse back to the same request.",
+   "registration signature accepted as DER or r||s; version frames asserted with Le absent/0 only; wrong-application with a registered handle is measured (MemoryStore ignores the RP, D5)",
+   "DESIGN.md §4 C17"),
  "C19": ("sched", "exploration",
    "harness-owned scheduler over hand-polled ceremonies: complete DFS over all schedules of small configurations plus proptest-generated schedules; invariant oracle over results, final store and the store event log",
    "Two or three real authenticators share one Arc<Mutex<_>> / Arc<RwLock<_>> store (inner store suspends inside calls so guards are held across suspensions, user validation suspends too). Every decision 'poll the k-th runnable ceremony' is a choice point; all schedules of ~400 fixed configurations (all pair types x suspension counts, some triples) are enumerated by prefix replay, larger configurations get generated shrinkable schedules. Judged: no deadlock (nobody runnable while ceremonies unfinished), every successful registration's credential present at the end, same-credential assertions pairwise distinct with the largest equal to the stored value, no unexpected failures.",
